@@ -556,6 +556,325 @@ def eval_case(case):
     return Eval(failures, sorted(cl), nontrivial=nt, ident=text, evals=evals, sample={"text": text[:300]})
 
 
+
+# ---------------------------------------------------------------------------------------------------------------------------
+# coverage-guided 'texts' arm: arbitrary texts, judged through an independent reference composer over the parser's events
+
+CORE_COLLECTION_TAGS = {"sequence": {None: "q", "!": "q", T + "seq": "q", T + "omap": "o", T + "pairs": "o"},
+                        "mapping": {None: "m", "!": "m", T + "map": "m", T + "set": "set"}}
+CORE_SCALAR_TAGS = {None, "!", T + "str", T + "int", T + "float", T + "null", T + "bool", T + "binary", T + "timestamp"}
+
+
+class _Skip(Exception):
+    pass
+
+
+def ref_compose_documents(events):
+    """Reference composer written for this arm: event list -> [(root id | ('error', what), nodes)] per document.  Anchors live for
+    one document; an alias to a name not defined so far in the document and a second definition of a name are errors (the
+    statement of C13).  nodes: id -> ('s', value, tag, plain_implicit) | ('q'|'o', tag, [ids]) | ('m'|'set', tag, [(kid, vid)])
+    | ('x', ...) for collections with a tag this arm does not model (the document is then skipped, not judged)."""
+    import yaml
+    docs = []
+    i = 0
+    n = len(events)
+    while i < n:
+        ev = events[i]
+        if not isinstance(ev, yaml.DocumentStartEvent):
+            i += 1
+            continue
+        i += 1
+        nodes = {}
+        anchors = {}
+        error = None
+        root = None
+        stack = []      # [kind, id, pending key id | None]
+
+        def attach(nid):
+            nonlocal root
+            if not stack:
+                root = nid
+                return
+            top = stack[-1]
+            e = nodes[top[1]]
+            if e[0] in ("q", "o", "xq"):
+                e[2].append(nid)
+            else:
+                if top[2] is None:
+                    top[2] = nid
+                else:
+                    e[2].append((top[2], nid))
+                    top[2] = None
+
+        while i < n and not isinstance(events[i], yaml.DocumentEndEvent):
+            ev = events[i]
+            i += 1
+            if error is not None:
+                continue
+            if isinstance(ev, yaml.AliasEvent):
+                if ev.anchor not in anchors:
+                    error = "undefined-alias"
+                    continue
+                attach(anchors[ev.anchor])
+                continue
+            if isinstance(ev, (yaml.SequenceEndEvent, yaml.MappingEndEvent)):
+                stack.pop()
+                continue
+            nid = len(nodes) + 1
+            if ev.anchor is not None:
+                if ev.anchor in anchors:
+                    error = "duplicate-anchor"
+                    continue
+                anchors[ev.anchor] = nid
+            if isinstance(ev, yaml.ScalarEvent):
+                nodes[nid] = ("s", ev.value, ev.tag, bool(ev.implicit[0]) and ev.tag is None)
+                attach(nid)
+            elif isinstance(ev, yaml.SequenceStartEvent):
+                k = CORE_COLLECTION_TAGS["sequence"].get(ev.tag, "xq")
+                nodes[nid] = (k, ev.tag, [])
+                attach(nid)
+                stack.append([k, nid, None])
+            else:
+                k = CORE_COLLECTION_TAGS["mapping"].get(ev.tag, "xm")
+                nodes[nid] = (k, ev.tag, [])
+                attach(nid)
+                stack.append([k, nid, None])
+        i += 1
+        docs.append((("error", error) if error else root, nodes))
+    return docs
+
+
+def _judgeable(root, nodes):
+    """None when the identity walk applies to the document; otherwise the reason it is only counted."""
+    for nid, e in nodes.items():
+        k = e[0]
+        if k in ("xq", "xm"):
+            return "collection-with-non-core-tag"
+        if k == "s":
+            if e[2] not in CORE_SCALAR_TAGS:
+                return "scalar-with-non-core-tag"
+        elif k in ("m", "set"):
+            for kid, vid in e[2]:
+                ke = nodes[kid]
+                if ke[0] != "s":
+                    return "collection-as-key"
+                if ke[1] in ("<<", "=") and ke[3]:
+                    return "merge-or-value-key"
+                if ke[2] in (T + "merge", T + "value"):
+                    return "merge-or-value-key"
+        elif k == "o":
+            for cid in e[2]:
+                ce = nodes[cid]
+                if ce[0] != "m" or len(ce[2]) != 1:
+                    return "omap-entry-shape"
+    return None
+
+
+def match_text(obj, root, nodes):
+    """Parallel walk of the loaded object and the reference graph: the relation reference node <-> Python object over lists,
+    dicts, sets and omap/pairs lists must be a bijection.  Scalar contents are C08's / C14's subject and are not compared."""
+    a2p, p2a = {}, {}
+    stack = [(obj, root, "$")]
+    shared = False
+    while stack:
+        o, nid, path = stack.pop()
+        e = nodes[nid]
+        k = e[0]
+        if k == "s":
+            continue
+        if nid in a2p or id(o) in p2a:
+            if a2p.get(nid) != id(o) or p2a.get(id(o)) != nid:
+                return ("%s: identity: reference node #%d is %s" % (path, nid, "a different object than at its first occurrence"
+                        if nid in a2p else "the same object as another node (#%s)" % p2a.get(id(o)))), shared
+            shared = True
+            continue
+        a2p[nid] = id(o)
+        p2a[id(o)] = nid
+        if k == "q":
+            if type(o) is not list or len(o) != len(e[2]):
+                return "%s: list of %d items expected, found %.60r" % (path, len(e[2]), o), shared
+            for j, (x, c) in enumerate(zip(o, e[2])):
+                stack.append((x, c, "%s[%d]" % (path, j)))
+        elif k == "m":
+            if type(o) is not dict:
+                return "%s: dict expected, found %.60r" % (path, o), shared
+            if len(o) == len(e[2]):       # (equal keys collapse: which entry survives is C14's subject)
+                for j, (x, (kid, vid)) in enumerate(zip(list(o.values()), e[2])):
+                    stack.append((x, vid, "%s{%d}" % (path, j)))
+        elif k == "set":
+            if type(o) is not set:
+                return "%s: set expected, found %.60r" % (path, o), shared
+        elif k == "o":
+            if type(o) is not list or len(o) != len(e[2]):
+                return "%s: list of %d pairs expected, found %.60r" % (path, len(e[2]), o), shared
+            for j, (x, c) in enumerate(zip(o, e[2])):
+                if type(x) is not tuple or len(x) != 2:
+                    return "%s[%d]: pair expected, found %.60r" % (path, j, x), shared
+                stack.append((x[1], nodes[c][2][0][1], "%s[%d].value" % (path, j)))
+    return None, shared
+
+
+def match_text_nodes(node, root, nodes):
+    """The composed node graph against the reference graph: kinds, scalar values, child counts and node identity (every kind)."""
+    a2p, p2a = {}, {}
+    stack = [(node, root, "$")]
+    while stack:
+        o, nid, path = stack.pop()
+        e = nodes[nid]
+        if nid in a2p or id(o) in p2a:
+            if a2p.get(nid) != id(o) or p2a.get(id(o)) != nid:
+                return "%s: node identity differs for reference node #%d" % (path, nid)
+            continue
+        a2p[nid] = id(o)
+        p2a[id(o)] = nid
+        k = e[0]
+        if k == "s":
+            if o.id != "scalar" or o.value != e[1]:
+                return "%s: scalar node %r expected, found %s %.40r" % (path, e[1], o.id, o.value)
+        elif k in ("q", "o", "xq"):
+            if o.id != "sequence" or len(o.value) != len(e[2]):
+                return "%s: sequence node of %d items expected, found %s" % (path, len(e[2]), o.id)
+            for j, (x, c) in enumerate(zip(o.value, e[2])):
+                stack.append((x, c, "%s[%d]" % (path, j)))
+        else:
+            if o.id != "mapping" or len(o.value) != len(e[2]):
+                return "%s: mapping node of %d entries expected, found %s" % (path, len(e[2]), o.id)
+            for j, ((kn, vn), (kid, vid)) in enumerate(zip(o.value, e[2])):
+                stack.append((kn, kid, "%s{%d}.k" % (path, j)))
+                stack.append((vn, vid, "%s{%d}.v" % (path, j)))
+    return None
+
+
+def _ev_summary(events):
+    out = []
+    for e in events:
+        out.append((type(e).__name__, getattr(e, "anchor", None), getattr(e, "tag", None), getattr(e, "value", None),
+                    getattr(e, "implicit", None) if not hasattr(e, "explicit") else None))
+    return out
+
+
+def eval_text(text):
+    import yaml
+    try:
+        events = list(yaml.parse(text, Loader=yaml.SafeLoader))
+    except (yaml.YAMLError, RecursionError):
+        return Eval([], ["text", "text:not-parsed"], nontrivial=False, ident=text, evals=1)
+    ref = ref_compose_documents(events)
+    cl = {"text"}
+    if not ref:
+        return Eval([], ["text", "text:no-document"], nontrivial=False, ident=text, evals=1)
+    legs = [("SafeLoader", yaml.SafeLoader), ("FullLoader", yaml.FullLoader), ("UnsafeLoader", yaml.UnsafeLoader)]
+    if have_c():
+        # the LibYAML legs take part when LibYAML's parser reads the text as the same events (other texts are C06's subject)
+        try:
+            if _ev_summary(yaml.parse(text, Loader=yaml.CSafeLoader)) == _ev_summary(events):
+                legs += [("CSafeLoader", yaml.CSafeLoader), ("CFullLoader", yaml.CFullLoader)]
+                cl.add("text:both-back-ends")
+        except (yaml.YAMLError, UnicodeDecodeError):
+            pass
+    failures = []
+    evals = 1
+    nontrivial = False
+    reasons = [None if isinstance(r, tuple) else _judgeable(r, nodes) for r, nodes in ref]
+    any_python_tag = any(isinstance(e, tuple) and isinstance(e[2 if e[0] == "s" else 1], str) and "python/" in e[2 if e[0] == "s" else 1]
+                         for _, nodes in ref for e in nodes.values())
+    for name, L in legs:
+        if any_python_tag and ("Unsafe" in name or "Full" in name):
+            continue            # (a text that names Python objects is C04's / C17's subject; nothing named by a text is run here)
+        budget = 20000 + 4000 * len(text)
+        # --- composed node graphs
+        evals += 1
+        k = 0
+        try:
+            with CallBudget(budget):
+                it = yaml.compose_all(text, Loader=L)
+                for k, (r, nodes) in enumerate(ref):
+                    if isinstance(r, tuple):
+                        try:
+                            got = next(it)
+                        except yaml.composer.ComposerError:
+                            cl.add("text:defect:" + r[1])
+                            nontrivial = True
+                            break
+                        failures.append(Failure("text:ill-formed-composed:%s:%s" % (r[1], name),
+                                                "document %d has an %s but compose_all delivered %.80r for %r" % (k, r[1], got, text)))
+                        break
+                    try:
+                        node = next(it)
+                    except StopIteration:
+                        failures.append(Failure("text:document-missing:compose:%s" % name, "document %d of %r not delivered" % (k, text)))
+                        break
+                    if r is None:
+                        continue
+                    m = match_text_nodes(node, r, nodes)
+                    if m:
+                        failures.append(Failure("text:nodes-differ:%s:%s" % (name, m.split(":")[1].strip()[:24]), "%s in %r" % (m, text)))
+                        break
+        except BudgetExceeded:
+            failures.append(Failure("text:budget:compose:%s" % name, "call budget exceeded composing %r" % text))
+        except yaml.YAMLError as e:
+            failures.append(Failure("text:compose-rejects-well-formed:%s:%s" % (name, type(e).__name__),
+                                    "document %d of %r has defined, unique anchors but compose_all raised %s" % (k, text, exc_msg(e))))
+        # --- loaded objects
+        evals += 1
+        k = 0
+        try:
+            with CallBudget(budget):
+                it = yaml.load_all(text, Loader=L)
+                for k, (r, nodes) in enumerate(ref):
+                    if isinstance(r, tuple):
+                        try:
+                            got = next(it)
+                        except yaml.composer.ComposerError:
+                            break
+                        failures.append(Failure("text:ill-formed-loaded:%s:%s" % (r[1], name),
+                                                "document %d has an %s but load_all delivered %.80r for %r" % (k, r[1], got, text)))
+                        break
+                    try:
+                        obj = next(it)
+                    except StopIteration:
+                        failures.append(Failure("text:document-missing:load:%s" % name, "document %d of %r not delivered" % (k, text)))
+                        break
+                    except yaml.composer.ComposerError as e:
+                        failures.append(Failure("text:load-rejects-well-formed:%s" % name,
+                                                "document %d of %r has defined, unique anchors but load_all raised %s" % (k, text, exc_msg(e))))
+                        break
+                    except yaml.constructor.ConstructorError as e:
+                        if reasons[k] is None and "recursive" in str(e.problem):
+                            failures.append(Failure("text:buildable-cycle-rejected:%s" % name,
+                                                    "document %d of %r (scalar keys, core tags) was rejected: %s" % (k, text, exc_msg(e))))
+                        cl.add("text:constructor-error")
+                        break
+                    if r is None:
+                        continue
+                    if reasons[k] is not None:
+                        cl.add("text:not-judged:" + reasons[k])
+                        continue
+                    m, shared = match_text(obj, r, nodes)
+                    if shared:
+                        cl.add("text:alias-to-container")
+                        nontrivial = True
+                    if m:
+                        failures.append(Failure("text:identity:%s:%s" % (name, m.split(":")[1].strip()[:24]), "%s in %r" % (m, text)))
+                        break
+        except BudgetExceeded:
+            failures.append(Failure("text:budget:load:%s" % name, "call budget exceeded loading %r" % text))
+        except yaml.YAMLError:
+            cl.add("text:other-yaml-error")
+    return Eval(failures, sorted(cl), nontrivial=nontrivial, ident=text, evals=evals)
+
+
+def text_campaign(shard, nshards, tier):
+    from vlib import greybox
+    return greybox.campaign(shard, nshards, tier, PROPERTY, "texts", quick=10000, thorough=500000, valid_only=True, extra_seeds=TEXT_SEEDS)
+
+
+TEXT_SEEDS = ["&a [1, *a]\n", "- &a {k: v}\n- *a\n- [*a, *a]\n", "&a {k: *a, l: [*a]}\n", "a: &x [1]\nb: *x\nc: [*x, &y {}, *y]\n",
+              "--- &a [*a]\n--- &a {k: *a}\n", "!!set &s {a, b}\n", "- !!omap [a: &v [1], b: *v]\n- *v\n", "- &s !!set {a}\n- *s\n",
+              "&a\n- &b\n  - *a\n  - *b\n- *b\n", "? &k key\n: &v [*k]\nother: *v\n", "- &p !!pairs [a: &q {x: *p}]\n- *q\n",
+              "- &a a\n- &a b\n", "- *a\n", "--- &a [x]\n--- *a\n", "[&a [], &b [], *a, *b]\n", "{a: &a {}, b: &b {}, c: *a, d: *b}\n"]
+
+
 def graphs(max_leaves=12):
     anc = st.sampled_from([False, True, True])
     scalar = st.tuples(st.just("s"), st.sampled_from([False, False, True]))
@@ -610,7 +929,8 @@ def illformed_cases():
 def arms(tier):
     return [Arm("wellformed", eval_case, wellformed_cases, quick=20000, thorough=400000),
             Arm("illformed", eval_case, illformed_cases, quick=8000, thorough=150000),
-            Arm("stateful-then-recursive", eval_case, stateful_then_recursive_cases, quick=3000, thorough=100000)]
+            Arm("stateful-then-recursive", eval_case, stateful_then_recursive_cases, quick=3000, thorough=100000),
+            Arm("texts", eval_text, enum=text_campaign)]
 
 
 REQUIRED_CLASSES = ["directive:%YAML-1.2", "yamlobject-instance", "delivery:text-stream-in-pieces", "delivery:byte-stream-in-pieces", "alias-to-container", "alias-to-finished-container", "alias-to-ancestor", "alias-to-scalar", "defect:undefined-alias", "defect:cross-document-alias",
